@@ -1,6 +1,7 @@
 (* C02 — SQLite: generated SQL runs and builds exactly the believed schema.  Pinned statements only. *)
 From VV.M1 Require Import Validate.
-From VV.SQLITE Require Import Corr Known WitnessP.
+From Coq Require Import Permutation.
+From VV.SQLITE Require Import Corr Known WitnessP RowsP RebuildP SimP Sim2P Sim3P.
 
 (* the full-strength target for one migration (a definition, not a claim): for every replayed baseline and every plan
    that replays, the model generator's statements execute on the engine model from the believed catalog and end in
@@ -77,6 +78,188 @@ Check inline_pk_survives_refuted :
   /\ first_error true ipk_base ipk_plan = None
   /\ c02_holds true ipk_base ipk_plan = false
   /\ known_C02_inline_pk_survives ipk_base ipk_plan = true.
+
+
+(* ================= the positive side: theorems that hold for all inputs ================= *)
+
+(* the 5-step temp-table rebuild shared by eight builders: if the statements execute, the catalog afterwards is the old one
+   minus t and t's indexes, plus the entry the CREATE TABLE describes (under t's name) and exactly the indexes the
+   trailing statements create *)
+Theorem C02_rebuild_generic : forall fk c c' t cols pks fks checks cs exprs (idx : list index_spec),
+  let temp := temp_name t in
+  ieq temp t = false ->
+  no_fk_to temp c = true -> no_index_on temp c = true ->
+  forallb (fun f => negb (ieq (sf_table f) temp)) fks = true ->
+  exec_all fk c ([SCreateTable temp cols pks fks checks; SInsertSelect temp cs t exprs; SDropTable t; SRenameTable temp t]
+                 ++ map (index_stmt_of t) idx) 0 = Ok c' ->
+  c' = mkCat (without_table t (cat_tables c) ++ [table_of_create t cols pks fks checks])
+             (without_indexes_of t (cat_indexes c) ++ map (index_of_spec t) idx).
+Proof. exact rebuild_generic. Qed.
+Print Assumptions C02_rebuild_generic.
+Check C02_rebuild_generic : forall fk c c' t cols pks fks checks cs exprs (idx : list index_spec),
+  let temp := temp_name t in
+  ieq temp t = false ->
+  no_fk_to temp c = true -> no_index_on temp c = true ->
+  forallb (fun f => negb (ieq (sf_table f) temp)) fks = true ->
+  exec_all fk c ([SCreateTable temp cols pks fks checks; SInsertSelect temp cs t exprs; SDropTable t; SRenameTable temp t]
+                 ++ map (index_stmt_of t) idx) 0 = Ok c' ->
+  c' = mkCat (without_table t (cat_tables c) ++ [table_of_create t cols pks fks checks])
+             (without_indexes_of t (cat_indexes c) ++ map (index_of_spec t) idx).
+
+(* … hence the believed catalog, provided the created entry is table_entry td' and the recreated index set is
+   index_entries td' (the generator's recreate_indexes with nothing pending) *)
+Theorem C02_rebuild_to_believed : forall fk c c' td' cols pks fks checks cs exprs before,
+  let t := t_name td' in
+  let temp := temp_name t in
+  ieq temp t = false ->
+  no_fk_to temp c = true -> no_index_on temp c = true ->
+  forallb (fun f => negb (ieq (sf_table f) temp)) fks = true ->
+  table_of_create t cols pks fks checks = table_entry td' ->
+  exec_all fk c ([SCreateTable temp cols pks fks checks; SInsertSelect temp cs t exprs; SDropTable t; SRenameTable temp t]
+                 ++ recreate_indexes t (t_constraints td') []) before = Ok c' ->
+  c' = mkCat (without_table t (cat_tables c) ++ [table_entry td'])
+             (without_indexes_of t (cat_indexes c) ++ index_entries td').
+Proof. exact rebuild_to_believed. Qed.
+Print Assumptions C02_rebuild_to_believed.
+Check C02_rebuild_to_believed : forall fk c c' td' cols pks fks checks cs exprs before,
+  let t := t_name td' in
+  let temp := temp_name t in
+  ieq temp t = false ->
+  no_fk_to temp c = true -> no_index_on temp c = true ->
+  forallb (fun f => negb (ieq (sf_table f) temp)) fks = true ->
+  table_of_create t cols pks fks checks = table_entry td' ->
+  exec_all fk c ([SCreateTable temp cols pks fks checks; SInsertSelect temp cs t exprs; SDropTable t; SRenameTable temp t]
+                 ++ recreate_indexes t (t_constraints td') []) before = Ok c' ->
+  c' = mkCat (without_table t (cat_tables c) ++ [table_entry td'])
+             (without_indexes_of t (cat_indexes c) ++ index_entries td').
+
+(* CreateTable outside the explicit-CHECK class, for a sane primary key (A2, A5) *)
+Theorem C02_sim_sqlite_create_table : forall fk s c t cols cs n l c',
+  Sim s c ->
+  normalize (mkTable t None cols cs) = Ok n ->
+  explicit_checks (t_constraints n) = [] ->
+  pk_sane n = true ->
+  gen_create_table t cols cs = GOk l ->
+  exec_all fk c l 0 = Ok c' ->
+  Sim (s ++ [n]) c'.
+Proof. exact sim_sqlite_create_table. Qed.
+Print Assumptions C02_sim_sqlite_create_table.
+Check C02_sim_sqlite_create_table : forall fk s c t cols cs n l c',
+  (Permutation (cat_tables c) (map table_entry s) /\ Permutation (cat_indexes c) (flat_map index_entries s)) ->
+  normalize (mkTable t None cols cs) = Ok n ->
+  explicit_checks (t_constraints n) = [] ->
+  pk_sane n = true ->
+  gen_create_table t cols cs = GOk l ->
+  exec_all fk c l 0 = Ok c' ->
+  (Permutation (cat_tables c') (map table_entry (s ++ [n])) /\ Permutation (cat_indexes c') (flat_map index_entries (s ++ [n]))).
+
+Theorem C02_sim_sqlite_delete_table : forall fk s c t c',
+  Sim s c -> ci_exact s t = true ->
+  exec_all fk c [SDropTable t] 0 = Ok c' ->
+  Sim (filter (fun x => negb (String.eqb (t_name x) t)) s) c'.
+Proof. exact sim_sqlite_delete_table. Qed.
+Print Assumptions C02_sim_sqlite_delete_table.
+Check C02_sim_sqlite_delete_table : forall fk s c t c',
+  Sim s c -> ci_exact s t = true ->
+  exec_all fk c [SDropTable t] 0 = Ok c' ->
+  Sim (filter (fun x => negb (String.eqb (t_name x) t)) s) c'.
+
+Theorem C02_sim_sqlite_add_index : forall fk s c t k s' c',
+  Sim s c -> ci_exact s t = true -> index_like k = true ->
+  apply_action s (AddConstraint t k) = Ok s' ->
+  exec_all fk c (index_stmt t k) 0 = Ok c' ->
+  Sim s' c'.
+Proof. exact sim_sqlite_add_index. Qed.
+Print Assumptions C02_sim_sqlite_add_index.
+Check C02_sim_sqlite_add_index : forall fk s c t k s' c',
+  Sim s c -> ci_exact s t = true -> index_like k = true ->
+  apply_action s (AddConstraint t k) = Ok s' ->
+  exec_all fk c (index_stmt t k) 0 = Ok c' ->
+  Sim s' c'.
+
+Theorem C02_sim_sqlite_modify_nullable : forall fk s c t col b fill td s' l c',
+  Sim s c -> ci_exact s t = true -> temp_free s t = true -> unique_table s t = true ->
+  find_table t s = Some td -> pk_sane (modified td col (set_nullable b)) = true ->
+  apply_action s (ModifyColumnNullable t col b fill) = Ok s' ->
+  gen s [] (ModifyColumnNullable t col b fill) = GOk l ->
+  exec_all fk c l 0 = Ok c' ->
+  Sim s' c'.
+Proof. exact sim_sqlite_modify_nullable. Qed.
+Print Assumptions C02_sim_sqlite_modify_nullable.
+Check C02_sim_sqlite_modify_nullable : forall fk s c t col b fill td s' l c',
+  Sim s c -> ci_exact s t = true -> temp_free s t = true -> unique_table s t = true ->
+  find_table t s = Some td -> pk_sane (modified td col (set_nullable b)) = true ->
+  apply_action s (ModifyColumnNullable t col b fill) = Ok s' ->
+  gen s [] (ModifyColumnNullable t col b fill) = GOk l ->
+  exec_all fk c l 0 = Ok c' ->
+  Sim s' c'.
+
+Theorem C02_sim_sqlite_modify_default : forall fk s c t col d td s' l c',
+  Sim s c -> ci_exact s t = true -> temp_free s t = true -> unique_table s t = true ->
+  find_table t s = Some td -> pk_sane (modified td col (set_default (option_map DStr d))) = true ->
+  apply_action s (ModifyColumnDefault t col d) = Ok s' ->
+  gen s [] (ModifyColumnDefault t col d) = GOk l ->
+  exec_all fk c l 0 = Ok c' ->
+  Sim s' c'.
+Proof. exact sim_sqlite_modify_default. Qed.
+Print Assumptions C02_sim_sqlite_modify_default.
+Check C02_sim_sqlite_modify_default : forall fk s c t col d td s' l c',
+  Sim s c -> ci_exact s t = true -> temp_free s t = true -> unique_table s t = true ->
+  find_table t s = Some td -> pk_sane (modified td col (set_default (option_map DStr d))) = true ->
+  apply_action s (ModifyColumnDefault t col d) = Ok s' ->
+  gen s [] (ModifyColumnDefault t col d) = GOk l ->
+  exec_all fk c l 0 = Ok c' ->
+  Sim s' c'.
+
+Theorem C02_sim_sqlite_modify_type : forall fk s c t col ty fw td s' l c',
+  Sim s c -> ci_exact s t = true -> temp_free s t = true -> unique_table s t = true ->
+  find_table t s = Some td -> pk_sane (modified td col (set_type ty)) = true ->
+  apply_action s (ModifyColumnType t col ty fw) = Ok s' ->
+  gen s [] (ModifyColumnType t col ty fw) = GOk l ->
+  exec_all fk c l 0 = Ok c' ->
+  Sim s' c'.
+Proof. exact sim_sqlite_modify_type. Qed.
+Print Assumptions C02_sim_sqlite_modify_type.
+Check C02_sim_sqlite_modify_type : forall fk s c t col ty fw td s' l c',
+  Sim s c -> ci_exact s t = true -> temp_free s t = true -> unique_table s t = true ->
+  find_table t s = Some td -> pk_sane (modified td col (set_type ty)) = true ->
+  apply_action s (ModifyColumnType t col ty fw) = Ok s' ->
+  gen s [] (ModifyColumnType t col ty fw) = GOk l ->
+  exec_all fk c l 0 = Ok c' ->
+  Sim s' c'.
+
+(* lifted over whole plans (evolving schema, pending constraints) and whole histories by induction: no bound on tables, actions
+   or migrations.  PARTIAL: plan_hyp admits CreateTable (no explicit CHECK), DeleteTable, AddConstraint index/unique,
+   ModifyColumnNullable/Default/Type and RawSql under the decidable side conditions of step_hyp; the other action kinds
+   (AddColumn, DeleteColumn, RenameTable/Column, RemoveConstraint, AddConstraint key/fk/check, ModifyColumnComment) are
+   missing and rest on the libsqlite3 oracle. *)
+Theorem C02_Sim_plan_partial : forall fk acts s c ls s' c',
+  Sim s c -> plan_hyp s acts = true ->
+  apply_all s acts = Ok s' ->
+  gen_plan s acts = Ok ls ->
+  exec_all fk c (List.concat ls) 0 = Ok c' ->
+  Sim s' c'.
+Proof. exact Sim_plan_partial. Qed.
+Print Assumptions C02_Sim_plan_partial.
+Check C02_Sim_plan_partial : forall fk acts s c ls s' c',
+  Sim s c -> plan_hyp s acts = true ->
+  apply_all s acts = Ok s' ->
+  gen_plan s acts = Ok ls ->
+  exec_all fk c (List.concat ls) 0 = Ok c' ->
+  Sim s' c'.
+
+Theorem C02_Sim_history_partial : forall fk plans s c s' c',
+  Sim s c -> run_history fk s c plans = Some (s', c') -> Sim s' c'.
+Proof. exact Sim_history_partial. Qed.
+Print Assumptions C02_Sim_history_partial.
+Check C02_Sim_history_partial : forall fk plans s c s' c',
+  Sim s c -> run_history fk s c plans = Some (s', c') -> Sim s' c'.
+
+(* the hypotheses are satisfiable: a three-migration history over two tables with rebuilds, both pragmas *)
+Example C02_history_hyp_satisfiable :
+  (exists r, run_history true [] empty_catalog demo_history = Some r)
+  /\ (exists r, run_history false [] empty_catalog demo_history = Some r).
+Proof. exact demo_history_runs. Qed.
 
 (* non-vacuity of the positive statements: a plan with a rebuild, a plain ADD COLUMN, an index and a CREATE TABLE *)
 Example C02_holds_somewhere : c02_holds true ok_base ok_plan = true /\ c02_holds false ok_base ok_plan = true.
